@@ -493,56 +493,75 @@ func c23Bits(r *core.Run, p *core.Program) {
 	info := enc.Pkg.TypesInfo
 	// encoder: every bit test is `b & (1 << i)` with i the loop variable counting from 0; '1' written on != 0
 	nTests := 0
-	ast.Inspect(enc.Decl.Body, func(n ast.Node) bool {
-		fs, ok := n.(*ast.ForStmt)
-		if !ok || fs.Init == nil {
-			return true
-		}
-		as, ok := fs.Init.(*ast.AssignStmt)
-		if !ok || len(as.Lhs) != 1 {
-			return true
-		}
-		iv := objOf(info, as.Lhs[0])
-		start, _ := constInt(info, as.Rhs[0])
-		if _, isInc := fs.Post.(*ast.IncDecStmt); !isInc {
-			return true
-		}
-		ast.Inspect(fs.Body, func(m ast.Node) bool {
-			ifs, ok := m.(*ast.IfStmt)
-			if !ok {
-				return true
-			}
-			be, ok := stripParens(ifs.Cond).(*ast.BinaryExpr)
-			if !ok || be.Op != token.NEQ {
-				return true
-			}
-			and, ok := stripParens(be.X).(*ast.BinaryExpr)
-			if !ok || and.Op != token.AND {
-				return true
-			}
-			sh, ok := stripParens(and.Y).(*ast.BinaryExpr)
-			if !ok || sh.Op != token.SHL {
-				return true
-			}
-			nTests++
-			one, _ := constInt(info, sh.X)
-			lsb := one == 1 && objOf(info, sh.Y) == iv && start == 0
-			// then-branch writes '1'
-			writesOne := false
-			inspectCalls(info, ifs.Body, func(call *ast.CallExpr, c *types.Func) {
-				if len(call.Args) == 1 {
-					if v, ok := constInt(info, call.Args[0]); ok && v == '1' {
-						writesOne = true
+	// the bit loop may live in an unexported helper of the engine (one helper serving whole and partial bytes)
+	encBodies := []ast.Node{enc.Decl.Body}
+	inspectCalls(info, enc.Decl.Body, func(c *ast.CallExpr, cal *types.Func) {
+		if cal != nil && !cal.Exported() && cal.Pkg() == enc.Pkg.Types && cal != enc.Obj {
+			if hd := p.FuncDecl(cal); hd != nil && hd.Body != nil {
+				dup := false
+				for _, b := range encBodies {
+					if b == ast.Node(hd.Body) {
+						dup = true
 					}
 				}
+				if !dup {
+					encBodies = append(encBodies, hd.Body)
+				}
+			}
+		}
+	})
+	for _, encBody := range encBodies {
+		ast.Inspect(encBody, func(n ast.Node) bool {
+			fs, ok := n.(*ast.ForStmt)
+			if !ok || fs.Init == nil {
+				return true
+			}
+			as, ok := fs.Init.(*ast.AssignStmt)
+			if !ok || len(as.Lhs) != 1 {
+				return true
+			}
+			iv := objOf(info, as.Lhs[0])
+			start, _ := constInt(info, as.Rhs[0])
+			if _, isInc := fs.Post.(*ast.IncDecStmt); !isInc {
+				return true
+			}
+			ast.Inspect(fs.Body, func(m ast.Node) bool {
+				ifs, ok := m.(*ast.IfStmt)
+				if !ok {
+					return true
+				}
+				be, ok := stripParens(ifs.Cond).(*ast.BinaryExpr)
+				if !ok || be.Op != token.NEQ {
+					return true
+				}
+				and, ok := stripParens(be.X).(*ast.BinaryExpr)
+				if !ok || and.Op != token.AND {
+					return true
+				}
+				sh, ok := stripParens(and.Y).(*ast.BinaryExpr)
+				if !ok || sh.Op != token.SHL {
+					return true
+				}
+				nTests++
+				one, _ := constInt(info, sh.X)
+				lsb := one == 1 && objOf(info, sh.Y) == iv && start == 0
+				// then-branch writes '1'
+				writesOne := false
+				inspectCalls(info, ifs.Body, func(call *ast.CallExpr, c *types.Func) {
+					if len(call.Args) == 1 {
+						if v, ok := constInt(info, call.Args[0]); ok && v == '1' {
+							writesOne = true
+						}
+					}
+				})
+				r.Check("C23.bit-order", fmt.Sprintf("%s|bit test #%d is bit i, least significant first, '1' when set", enc.Name(), nTests), ifs.Pos(), lsb && writesOne,
+					"the i-th character printed for a data byte must be '1' exactly when bit i (1<<i, i from 0) is set; found `"+exprStr(ifs.Cond)+"`")
+				return true
 			})
-			r.Check("C23.bit-order", fmt.Sprintf("%s|bit test #%d is bit i, least significant first, '1' when set", enc.Name(), nTests), ifs.Pos(), lsb && writesOne,
-				"the i-th character printed for a data byte must be '1' exactly when bit i (1<<i, i from 0) is set; found `"+exprStr(ifs.Cond)+"`")
 			return true
 		})
-		return true
-	})
-	r.Floor("C23.bit-order", "bit tests in the encoder", nTests, 2)
+	}
+	r.Floor("C23.bit-order", "bit tests in the encoder", nTests, 1)
 	// decoder: nextByte |= 1 << i on '1', i from 0
 	okDec := false
 	ast.Inspect(dec.Decl.Body, func(n ast.Node) bool {
